@@ -276,7 +276,7 @@ Proof.
     rewrite <- stamp_fill. destruct k; exact (fun H => H).
   - (* StreamToQueue *)
     simpl deliver.
-    destruct (IH (with_route e (route_code c (v_route e))) st x Hnow Hnc HT) as [ext [E F]].
+    destruct (IH (with_route e (route_code_opt c (v_route e))) st x Hnow Hnc HT) as [ext [E F]].
     exists ext. split; [exact E|]. simpl leaves. apply Forall2_map_l. eapply Forall2_impl; [|exact F].
     intros [p k] out. unfold LeafOut, under. cbn [fst snd]. destruct k; exact (fun H => H).
 Qed.
@@ -534,7 +534,7 @@ Proof.
 Qed.
 
 (* only the decorator's own field changes *)
-Definition queue_codes (p : path) : list seg := flat_map (fun s => match s with PQueue c => [c] | _ => [] end) p.
+Definition queue_codes (p : path) : list seg := flat_map (fun s => match s with PQueue (Some c) => [c] | _ => [] end) p.
 Definition taggers (p : path) : list (list tag * list tag) :=
   flat_map (fun s => match s with PTag a d => [(a, d)] | _ => [] end) p.
 (* is tag t in the set after the taggers, given whether it was in before *)
@@ -544,7 +544,21 @@ Definition member_after (tg : list (list tag * list tag)) (t : tag) (b : bool) :
 Lemma route_fold p : forall r, fold_left route_step p r = push_all (queue_codes p) r.
 Proof.
   unfold push_all. induction p as [|s p IH]; intro r; simpl; [reflexivity|].
-  rewrite IH. destruct s; simpl; reflexivity.
+  rewrite IH. destruct s as [| | |[c|]]; simpl; reflexivity.
+Qed.
+
+(* queues without a routing code are transparent for the route code: with only such queues on the path the
+   sink receives the caller's route code (None included) *)
+Definition has_code (s : pstep) : bool := match s with PQueue (Some _) => true | _ => false end.
+Lemma no_code_transparent now p e :
+  existsb has_code p = false -> v_route (expect_event now p e) = v_route e.
+Proof.
+  intro H. unfold expect_event. simpl. rewrite route_fold.
+  assert (Q : queue_codes p = []).
+  { induction p as [|s p IH]; [reflexivity|]. simpl in H. apply orb_false_iff in H. destruct H as [Hs Hp].
+    unfold queue_codes. simpl. fold (queue_codes p). rewrite (IH Hp).
+    destruct s as [| | |[c|]]; simpl in *; try reflexivity. discriminate. }
+  rewrite Q. reflexivity.
 Qed.
 
 Lemma tag_fold_notag now p : forall x, taggers p = [] -> fold_left (tag_step now) p x = x.
